@@ -1293,6 +1293,18 @@ func (e *Exec) execReturn(s *ast.ReturnStmt) {
 
 // finishReturn runs defers and records the return state.
 func (e *Exec) finishReturn(fr *Frame, s *ast.ReturnStmt) {
+	if fr.top && e.dry == 0 && e.contract != nil && len(e.contract.Instances) > 0 && len(fr.defers) > 0 {
+		// lemma instances are hypotheses of the return state: deferred calls (an Unlock that has to re-establish a
+		// monitor invariant) see them too
+		env := e.topEnv(e.st)
+		env.paramsAtEntry = true
+		env.scopePos = fr.body.Rbrace
+		env.lenientLocals = true
+		e.resultNames(env, fr, e.st)
+		for _, inst := range e.contract.Instances {
+			e.addFact(e.lemmaInstance(inst, env))
+		}
+	}
 	e.runDefers(fr)
 	if fr.top && e.dry == 0 {
 		ord := e.fallOff
